@@ -1,82 +1,132 @@
 import Gp.Lemmas.ReasmLimit
 /-
-  C11 (reassembly half): stream lifecycle — ReassemblyComplete exactly once, no data after it — for all
-  histories of the pool model, all inputs, any arithmetic.
+  C11 (reassembly half): stream lifecycle — StreamFactory.New, then ReassembledSG*, then
+  ReassemblyComplete exactly once, nothing after it — for one connection step (this file) and for all
+  histories of the pool model (ReasmLifePool.lean); all inputs, any arithmetic.
 -/
 set_option linter.unusedSimpArgs false
 set_option linter.unusedVariables false
 namespace Gp.Reasm
 open Gp
 
-/-- does the callback concern stream `sid` (data or completion)? -/
-def Ev.about (sid : Nat) : Ev → Bool
-  | .created _ _ => false
-  | .sg _ s _ _ => s = sid
-  | .done _ s _ => s = sid
+theorem life_append (sid : Nat) : ∀ (l1 l2 : List Ev) (s : Life),
+    life sid s (l1 ++ l2) = (life sid s l1).bind (fun s' => life sid s' l2)
+  | [], l2, s => rfl
+  | e :: rest, l2, s => by
+    simp only [List.cons_append, life]
+    cases lifeStep sid s e with
+    | none => rfl
+    | some s' => exact life_append sid rest l2 s'
 
-theorem lifeScan_append (sid : Nat) : ∀ (l1 l2 : List Ev) (b : Bool),
-    lifeScan sid b (l1 ++ l2) = (lifeScan sid b l1).bind (fun b' => lifeScan sid b' l2)
-  | [], l2, b => rfl
-  | e :: rest, l2, b => by
-    cases e with
-    | created c s => simp only [List.cons_append, lifeScan]; exact lifeScan_append sid rest l2 b
-    | sg c s d g =>
-      simp only [List.cons_append, lifeScan]
-      split
-      · split
-        · rfl
-        · exact lifeScan_append sid rest l2 b
-      · exact lifeScan_append sid rest l2 b
-    | done c s a =>
-      simp only [List.cons_append, lifeScan]
-      split
-      · split
-        · rfl
-        · exact lifeScan_append sid rest l2 true
-      · exact lifeScan_append sid rest l2 b
+theorem lifeStep_irrelevant {sid : Nat} {e : Ev} (h : e.mentions sid = false) (s : Life) : lifeStep sid s e = some s := by
+  simp [lifeStep, h]
 
-theorem lifeScan_irrelevant (sid : Nat) : ∀ (l : List Ev) (b : Bool), (∀ e ∈ l, Ev.about sid e = false) →
-    lifeScan sid b l = some b
-  | [], b, _ => rfl
-  | e :: rest, b, h => by
-    have he := h e (List.mem_cons_self ..)
-    have hr := lifeScan_irrelevant sid rest b (fun x hx => h x (List.mem_cons_of_mem _ hx))
-    cases e with
-    | created c s => simp only [lifeScan]; exact hr
-    | sg c s d g =>
-      simp only [Ev.about, decide_eq_false_iff_not] at he
-      simp only [lifeScan, he, if_false]; exact hr
-    | done c s a =>
-      simp only [Ev.about, decide_eq_false_iff_not] at he
-      simp only [lifeScan, he, if_false]; exact hr
+theorem life_irrelevant (sid : Nat) : ∀ (l : List Ev) (s : Life), (∀ e ∈ l, Ev.mentions sid e = false) →
+    life sid s l = some s
+  | [], s, _ => rfl
+  | e :: rest, s, h => by
+    simp only [life, lifeStep_irrelevant (h e (List.mem_cons_self ..))]
+    exact life_irrelevant sid rest s (fun x hx => h x (List.mem_cons_of_mem _ hx))
 
-/-- ScatterGathers of a stream that is not completed keep it not completed -/
-theorem lifeScan_sgs (sid c : Nat) (d : Bool) (sgs : List SG) :
-    lifeScan sid false (sgs.map (fun g => Ev.sg c sid d g)) = some false := by
+/-- ScatterGathers of a stream that is alive keep it alive -/
+theorem life_sgs (sid c : Nat) (d : Bool) (sgs : List SG) :
+    life sid .alive (sgs.map (fun g => Ev.sg c sid d g)) = some .alive := by
   induction sgs with
   | nil => rfl
-  | cons g rest ih => simp only [List.map_cons, lifeScan, if_true, Bool.false_eq_true, if_false]; exact ih
+  | cons g rest ih =>
+    simp only [List.map_cons, life, lifeStep, Ev.mentions, decide_true, if_true]
+    exact ih
 
-theorem sgs_about (sid c s : Nat) (d : Bool) (sgs : List SG) (hne : s ≠ sid) :
-    ∀ e ∈ sgs.map (fun g => Ev.sg c s d g), Ev.about sid e = false := by
+theorem sgs_mentions (sid c s : Nat) (d : Bool) (sgs : List SG) (hne : s ≠ sid) :
+    ∀ e ∈ sgs.map (fun g => Ev.sg c s d g), Ev.mentions sid e = false := by
   intro e he
   obtain ⟨g, _, rfl⟩ := List.mem_map.mp he
-  simp [Ev.about, hne]
+  simp [Ev.mentions, hne]
+
+/-- once completed, every further callback about the stream is illegal -/
+theorem life_done (sid : Nat) : ∀ (l : List Ev) (s : Life), life sid .done l = some s →
+    s = .done ∧ ∀ e ∈ l, Ev.mentions sid e = false
+  | [], s, h => by
+    simp only [life, Option.some.injEq] at h
+    exact ⟨h.symm, by simp⟩
+  | e :: rest, s, h => by
+    simp only [life] at h
+    cases hm : e.mentions sid with
+    | true =>
+      simp only [lifeStep, hm, if_true] at h
+      cases e <;> simp at h
+    | false =>
+      rw [lifeStep_irrelevant hm] at h
+      obtain ⟨h1, h2⟩ := life_done sid rest s h
+      refine ⟨h1, ?_⟩
+      intro x hx
+      rcases List.mem_cons.mp hx with rfl | hx
+      · exact hm
+      · exact h2 x hx
+
+/-- a stream that is alive never becomes fresh again -/
+theorem life_alive_ne_fresh (sid : Nat) : ∀ (l : List Ev) (s : Life), life sid .alive l = some s → s ≠ .fresh
+  | [], s, hs => by simp only [life, Option.some.injEq] at hs; subst hs; simp
+  | e :: rest, s, hs => by
+    simp only [life] at hs
+    cases hm : e.mentions sid with
+    | true =>
+      simp only [lifeStep, hm, if_true] at hs
+      cases e with
+      | created _ _ => simp at hs
+      | sg _ _ _ _ => simp only at hs; exact life_alive_ne_fresh sid rest s hs
+      | done _ _ _ =>
+        simp only at hs
+        intro hc
+        have := (life_done sid rest s hs).1
+        rw [this] at hc; cases hc
+    | false => rw [lifeStep_irrelevant hm] at hs; exact life_alive_ne_fresh sid rest s hs
+
+/-- a stream that was never created has no callbacks at all -/
+theorem life_fresh (sid : Nat) : ∀ (l : List Ev), life sid .fresh l = some .fresh →
+    ∀ e ∈ l, Ev.mentions sid e = false
+  | [], _ => by simp
+  | e :: rest, h => by
+    simp only [life] at h
+    cases hm : e.mentions sid with
+    | true =>
+      exfalso
+      simp only [lifeStep, hm, if_true] at h
+      cases e with
+      | created c s => simp only at h; exact life_alive_ne_fresh sid rest _ h rfl
+      | sg _ _ _ _ => simp at h
+      | done _ _ _ => simp at h
+    | false =>
+      rw [lifeStep_irrelevant hm] at h
+      intro x hx
+      rcases List.mem_cons.mp hx with rfl | hx
+      · exact hm
+      · exact life_fresh sid rest h x hx
+
+theorem or_decide3 (a b : Bool) (P : Prop) [Decidable P] : (a || b || decide P) = decide (a = true ∨ b = true ∨ P) := by
+  cases a <;> cases b <;> simp
+theorem or_decide2 (a b : Bool) : (a || b) = decide (a = true ∨ b = true) := by
+  cases a <;> cases b <;> simp
 
 theorem completion_evs (c : Conn) (closedNow : Bool) (cmpl : CmplRule) :
     (completion c closedNow cmpl).1 = (if closedNow ∧ c.c2s.closed ∧ c.s2c.closed then [Ev.done c.id c.sid (cmpl.answer c.id)] else []) ∧
-    ((completion c closedNow cmpl).2 = true → closedNow = true ∧ c.c2s.closed = true ∧ c.s2c.closed = true) := by
+    ((completion c closedNow cmpl).2 = true → closedNow = true ∧ c.c2s.closed = true ∧ c.s2c.closed = true) ∧
+    ((closedNow = true ∧ c.c2s.closed = true ∧ c.s2c.closed = true) → (completion c closedNow cmpl).2 = cmpl.answer c.id) := by
   unfold completion
   split
-  · rename_i h; exact ⟨rfl, fun _ => h⟩
-  · exact ⟨rfl, fun h => by cases h⟩
+  · rename_i h; exact ⟨rfl, fun _ => h, fun _ => rfl⟩
+  · rename_i h; exact ⟨rfl, fun h' => (by cases h'), fun h' => absurd h' h⟩
 
 /-- what one step does to ONE connection, seen by its stream: `evs` are the callbacks, `c'` the connection afterwards -/
 structure ConnLife (c : Conn) (evs : List Ev) (c' : Conn) (removed : Bool) : Prop where
   sid : c'.sid = c.sid ∧ c'.id = c.id
-  only : ∀ s, s ≠ c.sid → ∀ e ∈ evs, Ev.about s e = false
-  scan : lifeScan c.sid c.done evs = some c'.done
+  only : ∀ s, s ≠ c.sid → ∀ e ∈ evs, Ev.mentions s e = false
+  scan : life c.sid (Life.ofDone c.done) evs = some (Life.ofDone c'.done)
   rem : removed = true → c'.done = true
+  /-- a connection that is finished and stays in the pool: its stream refused the removal -/
+  refused : c'.done = true → removed = false → c.done = true ∨ Ev.done c.id c.sid false ∈ evs
+  /-- completion happens only in the step that closes the second direction -/
+  nodone : c'.done = c.done → ∀ e ∈ evs, ∀ k s a, e ≠ Ev.done k s a
 
 /-- a step on one half connection followed by the completion check -/
 theorem half_step_life (c : Conn) (b : Bool) (o : Out) (cmpl : CmplRule) {u : Int}
@@ -85,73 +135,82 @@ theorem half_step_life (c : Conn) (b : Bool) (o : Out) (cmpl : CmplRule) {u : In
       (c.setHalf b o.half) (completion (c.setHalf b o.half) o.closed cmpl).2 := by
   have hsid : (c.setHalf b o.half).sid = c.sid ∧ (c.setHalf b o.half).id = c.id := by
     cases b <;> simp [Conn.setHalf]
-  obtain ⟨hcev, hcrem⟩ := completion_evs (c.setHalf b o.half) o.closed cmpl
+  obtain ⟨hcev, hcrem, hcans⟩ := completion_evs (c.setHalf b o.half) o.closed cmpl
   -- closed flags of the new connection
   have hother : (c.setHalf b o.half).done = (o.half.closed && (c.half (!b)).closed) := by
     cases b <;> simp [Conn.setHalf, Conn.half, Conn.done, Bool.and_comm]
   have hcdone : c.done = ((c.half b).closed && (c.half (!b)).closed) := by
     cases b <;> simp [Conn.half, Conn.done, Bool.and_comm]
-  refine { sid := hsid, only := ?_, scan := ?_, rem := ?_ }
-  · intro s hs e he
-    rcases List.mem_append.mp he with he | he
-    · exact sgs_about s c.id c.sid _ o.sgs (Ne.symm hs) e he
-    · rw [hcev] at he
-      split at he
-      · simp only [List.mem_singleton] at he
-        subst he
-        simp [Ev.about, hsid.1, Ne.symm hs]
-      · simp at he
-  · rw [lifeScan_append]
-    by_cases hd : c.done = true
-    · -- already completed: the half is closed, nothing is delivered, nothing completes again
-      have hcl : (c.half b).closed = true := by rw [hcdone] at hd; simp at hd; exact hd.1
-      have hq := ac.quiet hcl
-      rw [hquiet hcl, hd]
-      simp only [List.map_nil, lifeScan, Option.bind]
-      rw [hcev, hq.1]
-      simp only [Bool.false_eq_true, false_and, if_false, lifeScan]
-      rw [hother, ac.closedF hq.1, ← hcdone, hd]
-    · have hd' : c.done = false := by simpa using hd
-      rw [hd', lifeScan_sgs]
-      simp only [Option.bind]
-      rw [hcev]
-      by_cases hc : o.closed = true ∧ (c.setHalf b o.half).c2s.closed = true ∧ (c.setHalf b o.half).s2c.closed = true
-      · rw [if_pos hc]
-        simp only [lifeScan, hsid.1, if_true, Bool.false_eq_true, if_false]
-        simp only [Conn.done, hc.2.1, hc.2.2, Bool.and_self]
-      · rw [if_neg hc]
-        simp only [lifeScan]
-        -- not completed now: either nothing was closed, or the other direction is still open
-        congr 1
+  have hsgs_nodone : ∀ e ∈ o.sgs.map (fun g => Ev.sg c.id c.sid (!b) g), ∀ k s a, e ≠ Ev.done k s a := by
+    intro e he k s a
+    obtain ⟨g, _, rfl⟩ := List.mem_map.mp he
+    simp
+  by_cases hd : c.done = true
+  · -- already completed: the half is closed, nothing is delivered, nothing completes again
+    have hcl : (c.half b).closed = true := by rw [hcdone] at hd; simp at hd; exact hd.1
+    have hq := ac.quiet hcl
+    have hev : (completion (c.setHalf b o.half) o.closed cmpl).1 = [] := by
+      rw [hcev, hq.1]; simp
+    have hd' : (c.setHalf b o.half).done = true := by rw [hother, ac.closedF hq.1, ← hcdone, hd]
+    refine { sid := hsid, only := ?_, scan := ?_, rem := fun _ => hd', refused := fun _ _ => Or.inl hd, nodone := ?_ }
+    · intro s hs e he
+      rw [hquiet hcl, hev] at he; simp at he
+    · rw [hquiet hcl, hev, hd, hd']; rfl
+    · intro _ e he
+      rw [hquiet hcl, hev] at he; simp at he
+  · have hd' : c.done = false := by simpa using hd
+    by_cases hc : o.closed = true ∧ (c.setHalf b o.half).c2s.closed = true ∧ (c.setHalf b o.half).s2c.closed = true
+    · -- both directions are closed now: ReassemblyComplete
+      have hdn : (c.setHalf b o.half).done = true := by simp only [Conn.done, hc.2.1, hc.2.2, Bool.and_self]
+      rw [hcev, if_pos hc]
+      refine { sid := hsid, only := ?_, scan := ?_, rem := fun _ => hdn, refused := ?_, nodone := ?_ }
+      · intro s hs e he
+        rcases List.mem_append.mp he with he | he
+        · exact sgs_mentions s c.id c.sid _ o.sgs (Ne.symm hs) e he
+        · simp only [List.mem_singleton] at he
+          subst he
+          simp [Ev.mentions, hsid.1, Ne.symm hs]
+      · rw [life_append, hd', hdn]
+        simp only [Life.ofDone, Bool.false_eq_true, if_false, if_true, life_sgs, Option.bind]
+        simp [life, lifeStep, Ev.mentions, hsid.1]
+      · intro _ hr
+        right
+        have := hcans hc
+        rw [hr] at this
+        rw [← this, hsid.1, hsid.2]
+        exact List.mem_append_right _ (List.mem_singleton.mpr rfl)
+      · intro he; rw [hdn, hd'] at he; cases he
+    · -- not completed now: either nothing was closed, or the other direction is still open
+      have hdn : (c.setHalf b o.half).done = false := by
         cases hoc : o.closed with
-        | false =>
-          rw [hother, ac.closedF hoc, ← hcdone, hd']
+        | false => rw [hother, ac.closedF hoc, ← hcdone, hd']
         | true =>
           have : ¬ ((c.setHalf b o.half).c2s.closed = true ∧ (c.setHalf b o.half).s2c.closed = true) := fun h => hc ⟨hoc, h⟩
           simp only [Conn.done]
           cases h1 : (c.setHalf b o.half).c2s.closed <;> cases h2 : (c.setHalf b o.half).s2c.closed <;> simp_all
-  · intro hr
-    have := hcrem hr
-    simp only [Conn.done, this.2.1, this.2.2, Bool.and_self]
-
-theorem lifeScan_true (sid : Nat) : ∀ (l : List Ev) (b : Bool), lifeScan sid true l = some b → b = true
-  | [], b, h => by simp only [lifeScan, Option.some.injEq] at h; exact h.symm
-  | e :: rest, b, h => by
-    cases e with
-    | created c s => simp only [lifeScan] at h; exact lifeScan_true sid rest b h
-    | sg c s d g =>
-      simp only [lifeScan] at h
-      split at h
-      · simp at h
-      · exact lifeScan_true sid rest b h
-    | done c s a =>
-      simp only [lifeScan] at h
-      split at h
-      · simp at h
-      · exact lifeScan_true sid rest b h
+      have hrem : (completion (c.setHalf b o.half) o.closed cmpl).2 = false := by
+        cases hr : (completion (c.setHalf b o.half) o.closed cmpl).2 with
+        | false => rfl
+        | true => exact absurd (hcrem hr) hc
+      rw [hcev, if_neg hc, List.append_nil]
+      refine { sid := hsid, only := ?_, scan := ?_, rem := ?_, refused := ?_, nodone := fun _ => hsgs_nodone }
+      · intro s hs e he
+        exact sgs_mentions s c.id c.sid _ o.sgs (Ne.symm hs) e he
+      · rw [hd', hdn]
+        exact life_sgs _ _ _ _
+      · intro hr; rw [hrem] at hr; cases hr
+      · intro hdt; rw [hdn] at hdt; cases hdt
 
 theorem ConnLife.refl (c : Conn) : ConnLife c [] c false :=
-  { sid := ⟨rfl, rfl⟩, only := fun _ _ e he => by simp at he, scan := rfl, rem := fun h => by cases h }
+  { sid := ⟨rfl, rfl⟩, only := fun _ _ e he => by simp at he, scan := rfl, rem := (fun h => by cases h),
+    refused := fun h _ => Or.inl h, nodone := fun _ e he => by simp at he }
+
+theorem ofDone_true_of_life {sid : Nat} {l : List Ev} {b : Bool} (h : life sid (Life.ofDone true) l = some (Life.ofDone b)) :
+    b = true := by
+  have := (life_done sid l _ h).1
+  cases b
+  · simp [Life.ofDone] at this
+  · rfl
 
 theorem ConnLife.trans {c c1 c2 : Conn} {e1 e2 : List Ev} {r1 r2 : Bool} (h1 : ConnLife c e1 c1 r1)
     (h2 : ConnLife c1 e2 c2 r2) (extra : Bool) (hx : extra = true → c2.done = true) :
@@ -162,7 +221,7 @@ theorem ConnLife.trans {c c1 c2 : Conn} {e1 e2 : List Ev} {r1 r2 : Bool} (h1 : C
     · exact h1.only s hs e he
     · exact h2.only s (by rw [h1.sid.1]; exact hs) e he
   scan := by
-    rw [lifeScan_append, h1.scan]
+    rw [life_append, h1.scan]
     simp only [Option.bind]
     have := h2.scan
     rw [h1.sid.1] at this
@@ -173,64 +232,101 @@ theorem ConnLife.trans {c c1 c2 : Conn} {e1 e2 : List Ev} {r1 r2 : Bool} (h1 : C
     · have hd1 := h1.rem hr
       have := h2.scan
       rw [hd1] at this
-      exact lifeScan_true _ _ _ this
+      exact ofDone_true_of_life this
     · exact h2.rem hr
     · exact hx hr
+  refused := fun hd hr => by
+    simp only [Bool.or_eq_false_iff] at hr
+    rcases h2.refused hd hr.1.2 with h | h
+    · rcases h1.refused h hr.1.1 with h' | h'
+      · exact Or.inl h'
+      · exact Or.inr (List.mem_append_left _ h')
+    · rw [h1.sid.1, h1.sid.2] at h
+      exact Or.inr (List.mem_append_right _ h)
+  nodone := fun hd e he k s a => by
+    -- done flags only go up: c.done ≤ c1.done ≤ c2.done
+    have hmono1 : c.done = true → c1.done = true := fun h => by
+      have := h1.scan; rw [h] at this; exact ofDone_true_of_life this
+    have hmono2 : c1.done = true → c2.done = true := fun h => by
+      have := h2.scan; rw [h] at this; exact ofDone_true_of_life this
+    have e1' : c1.done = c.done := by
+      cases hc : c.done with
+      | true => exact hmono1 hc
+      | false =>
+        cases hc1 : c1.done with
+        | false => rfl
+        | true => have := hmono2 hc1; rw [hd, hc] at this; cases this
+    rcases List.mem_append.mp he with he | he
+    · exact h1.nodone e1' e he k s a
+    · exact h2.nodone (by rw [hd, e1']) e he k s a
 
-/-! ### the pool -/
+/-! ### the three entry points, one connection -/
 
-/-- stream ids are fresh and identify the connection -/
-structure SInv (st : St) : Prop where
-  lt : ∀ c ∈ st.conns, c.sid < st.nextSid
-  inj : ∀ c ∈ st.conns, ∀ d ∈ st.conns, c.sid = d.sid → c.id = d.id
+theorem setHalf_false (c : Conn) (h : Half) : c.setHalf false h = { c with s2c := h } := by simp [Conn.setHalf]
+theorem setHalf_true (c : Conn) (h : Half) : c.setHalf true h = { c with c2s := h } := by simp [Conn.setHalf]
 
-theorem findSid_some {sid : Nat} {l : List Conn} {c : Conn} (h : findSid sid l = some c) : c ∈ l ∧ c.sid = sid := by
-  induction l with
-  | nil => simp [findSid] at h
-  | cons d rest ih =>
-    simp only [findSid] at h
+/-- AssembleWithContext on the connection `c` -/
+theorem assemble_life (A : Arith) (cfg : Cfg) (c : Conn) (b : Bool) (used : Int) (p : Seg) (acc : Nat) (keep : KeepRule)
+    (cmpl : CmplRule) (o : Out) (ha : assemble A cfg (c.half b) used p acc keep = .ok o) :
+    ConnLife c (o.sgs.map (fun g => Ev.sg c.id c.sid (!b) g) ++ (completion (c.setHalf b o.half) o.closed cmpl).1)
+      (c.setHalf b o.half) (completion (c.setHalf b o.half) o.closed cmpl).2 :=
+  half_step_life c b o cmpl (assemble_acct A cfg _ used p acc keep o ha)
+    (fun hc => assemble_quiet A cfg _ used p acc keep o hc ha)
+
+/-- body of the FlushWithOptions loop -/
+theorem flushConn_life (A : Arith) (c : Conn) (used : Int) (t tc : Int) (keep : KeepRule) (cmpl : CmplRule) (o : ConnOut)
+    (h : flushConn A c used t tc keep cmpl = .ok o) : ConnLife c o.evs o.conn o.removed := by
+  unfold flushConn at h
+  split at h
+  · rename_i o1 h1
+    have l1 := half_step_life c false o1 cmpl (flushClose_acct A c.s2c used t tc _ keep o1 h1)
+      (fun hc => flushClose_quiet A c.s2c used t tc _ keep o1 hc h1)
+    rw [setHalf_false] at l1
+    simp only at h
     split at h
-    · obtain rfl := Option.some.inj h
-      rename_i hd; exact ⟨List.mem_cons_self .., hd⟩
-    · obtain ⟨a, b⟩ := ih h; exact ⟨List.mem_cons_of_mem _ a, b⟩
-
-theorem findSid_none {sid : Nat} {l : List Conn} (h : findSid sid l = none) : ∀ c ∈ l, c.sid ≠ sid := by
-  induction l with
-  | nil => intro c hc; simp at hc
-  | cons d rest ih =>
-    simp only [findSid] at h
-    split at h
+    · rename_i o2 h2
+      have l2 := half_step_life { c with s2c := o1.half } true o2 cmpl
+        (flushClose_acct A c.c2s o1.used t tc _ keep o2 h2)
+        (fun hc => flushClose_quiet A c.c2s o1.used t tc _ keep o2 hc h2)
+      rw [setHalf_true] at l2
+      obtain rfl := Res.ok.inj h
+      have := ConnLife.trans l1 l2
+        (decide (o1.half.closed = true ∧ o2.half.closed = true ∧ o1.half.lastSeen < tc ∧ o2.half.lastSeen < tc))
+        (fun hx => by
+          simp only [decide_eq_true_eq] at hx
+          simp only [Conn.done, hx.1, hx.2.1, Bool.and_self])
+      simp only [Bool.not_false, Bool.not_true, List.append_assoc] at this ⊢
+      rw [or_decide3] at this
+      exact this
     · cases h
-    · rename_i hd
-      intro c hc
-      rcases List.mem_cons.mp hc with rfl | hc
-      · exact hd
-      · exact ih h c hc
+    · cases h
+  · cases h
+  · cases h
 
-/-- with identifying stream ids, `findSid` finds exactly the member with that id -/
-theorem findSid_mem {sid : Nat} {l : List Conn} {c : Conn} (hids : IdsOK l)
-    (hinj : ∀ a ∈ l, ∀ b ∈ l, a.sid = b.sid → a.id = b.id) (hc : c ∈ l) (hs : c.sid = sid) : findSid sid l = some c := by
-  induction l with
-  | nil => simp at hc
-  | cons d rest ih =>
-    have hidc := List.pairwise_cons.mp hids
-    simp only [findSid]
-    rcases List.mem_cons.mp hc with rfl | hc
-    · rw [if_pos hs]
-    · have hne : ¬ d.sid = sid := by
-        intro hd
-        have := hinj d (List.mem_cons_self ..) c (List.mem_cons_of_mem _ hc) (by rw [hd, hs])
-        have := hidc.1 c hc
-        omega
-      rw [if_neg hne]
-      exact ih hidc.2 (fun a ha b hb => hinj a (List.mem_cons_of_mem _ ha) b (List.mem_cons_of_mem _ hb)) hc
-
-/-- `completed` depends only on the connection (if any) that carries the stream -/
-theorem completed_eq_of {st st' : St} {sid : Nat}
-    (hn : (decide (sid < st.nextSid)) = (decide (sid < st'.nextSid)))
-    (hf : doneOpt (findSid sid st.conns) = doneOpt (findSid sid st'.conns)) :
-    completed st sid = completed st' sid := by
-  unfold completed
-  rw [hn, hf]
+/-- body of the FlushAll loop -/
+theorem flushAllConn_life (A : Arith) (c : Conn) (used : Int) (keep : KeepRule) (cmpl : CmplRule) (o : ConnOut)
+    (h : flushAllConn A c used keep cmpl = .ok o) : ConnLife c o.evs o.conn o.removed := by
+  unfold flushAllConn at h
+  split at h
+  · rename_i o1 h1
+    have l1 := half_step_life c false o1 cmpl (flushAllHalf_acct A c.s2c used keep o1 h1).1
+      (fun hc => flushAllHalf_quiet A c.s2c used keep o1 hc h1)
+    rw [setHalf_false] at l1
+    simp only at h
+    split at h
+    · rename_i o2 h2
+      have l2 := half_step_life { c with s2c := o1.half } true o2 cmpl
+        (flushAllHalf_acct A c.c2s o1.used keep o2 h2).1
+        (fun hc => flushAllHalf_quiet A c.c2s o1.used keep o2 hc h2)
+      rw [setHalf_true] at l2
+      obtain rfl := Res.ok.inj h
+      have := ConnLife.trans l1 l2 false (fun hx => by cases hx)
+      simp only [Bool.not_false, Bool.not_true, List.append_assoc, Bool.or_false] at this ⊢
+      rw [or_decide2] at this
+      exact this
+    · cases h
+    · cases h
+  · cases h
+  · cases h
 
 end Gp.Reasm
